@@ -514,6 +514,7 @@ H_TS = [0.8, -1.3]
 H_ANGLE = 0.7
 H_OPS_ANY = [["pa"], ["ot"], ["an"], ["g", 0], ["g", 1], ["copy"], ["norm"]]
 H_OPS_COMPOSITE = [["set0"], ["rev"], ["get1"]]
+H_LENGTHS = [1.0, 2.5, 0.4]       # Minkowski lengths of the tangent vectors the histories start from / assign
 
 
 def lorentz(n, which):
@@ -541,20 +542,30 @@ def case_history(hist):
     root = hist[0]
     n = root[1]
     units = []
-    for (k, kq, lam) in root[2:]:
+    for (k, kq, lam, *rest) in root[2:]:
         k, kq = np.asarray(k, dtype=float), np.asarray(kq, dtype=float)
-        units.append((proj(k, lam), hyp.unit_hyperboloid(proj(k)), hyp.unit_direction(proj(k), proj(kq))))
+        units.append((proj(k, lam), hyp.unit_hyperboloid(proj(k)), hyp.unit_direction(proj(k), proj(kq)), float(rest[0]) if rest else 1.0))
 
     def rows(us):
         pr = np.stack([u[0] for u in us])
         sg = np.where(pr[:, :1] < 0, -1.0, 1.0)
-        return pr, sg * np.stack([u[2] for u in us])
+        return pr, sg * np.stack([u[3] * u[2] for u in us])
+
+    def length_problem(tv, M):
+        """The Minkowski length of tv's vector row(s) against the model lengths M (None if equal)."""
+        vec = np.asarray(tv.vector, dtype=float)
+        with np.errstate(all="ignore"):
+            got = np.sqrt(np.abs(hyp.mink(vec, vec)))
+        if got.shape != M.shape or not np.all(np.abs(got - M) <= TOL * (1.0 + np.sum(vec * vec, axis=-1))):
+            return "the vector has Minkowski length %r, expected %r" % (got.tolist(), M.tolist())
+        return None
 
     pr, vr = rows(units[:2])
     tv = H.TangentVector(H.Point(pr), vr)
     t = 1
     P = np.stack([u[1] for u in units[:2]])          # model state
     D = np.stack([u[2] for u in units[:2]])
+    M = np.array([u[3] for u in units[:2]])           # lengths: isometries, copies and QUERIES keep them, normalized() gives 1
     earlier = []                                      # earlier model states (for the diagnosis "stale")
     queried = False                                   # some query was made on an ancestor of the current object
     last = "build"
@@ -585,18 +596,19 @@ def case_history(hist):
                 tv = H.TangentVector(tv)
             elif o == "norm":
                 tv = tv.normalized()
+                M = np.ones_like(M)
             elif o == "set0":
                 spr, svr = rows(units[2:3])
                 tv[0] = H.TangentVector(H.Point(spr[0]), svr[0])
-                P, D = P.copy(), D.copy()
-                P[0], D[0] = units[2][1], units[2][2]
+                P, D, M = P.copy(), D.copy(), M.copy()
+                P[0], D[0], M[0] = units[2][1], units[2][2], units[2][3]
                 t += 1
             elif o == "rev":
                 tv = tv[::-1]
-                P, D = P[::-1].copy(), D[::-1].copy()
+                P, D, M = P[::-1].copy(), D[::-1].copy(), M[::-1].copy()
             elif o == "get1":
                 tv = tv[1]
-                P, D = P[1].copy(), D[1].copy()
+                P, D, M = P[1].copy(), D[1].copy(), M[1].copy()
             else:
                 raise AssertionError("HARNESS: unknown op %r" % (op,))
         t += 1
@@ -606,6 +618,12 @@ def case_history(hist):
     hidden = "queried-before" if queried else "never-queried"
     # the object's data is the model state
     same_tv(tv, P, D, v, "history/data/after-%s" % last, who)
+    if not v:
+        # ... including its LENGTH (same_tv compares directions): a tangent vector of length 2.5 that was asked for a point
+        # along it, for its frame or for an angle is still the tangent vector of length 2.5
+        bad = length_problem(tv, M)
+        if bad:
+            v.append({"key": "history/length/after-%s/%s" % (last, hidden), "msg": "%s: %s" % (who, bad)})
     if v:
         return {"v": v, "t": t, "key": repr(hist), "ops": [], "o": "data", "nt": len(hist) > 1}
     for tt in H_TS:
@@ -658,6 +676,11 @@ def case_history(hist):
         v.append({"key": "history/angle/after-%s/%s" % (last, hidden),
                   "msg": "%s: angle with the tangent vector turned by %r in the plane towards e_j, j = %r, is %r" % (
                       who, H_ANGLE, (jbest + 1).tolist(), ang.tolist())})
+    if not v:
+        # the evaluations above (point_along, origin_to, angle as receiver; tv2 as argument of angle) are queries too
+        bad = length_problem(tv, M) or length_problem(tv2, np.ones_like(M))
+        if bad:
+            v.append({"key": "history/length/after-the-state-queries", "msg": "%s: after point_along / origin_to / angle in this state %s" % (who, bad)})
     ops = [] if v else H_OPS_ANY + (H_OPS_COMPOSITE if composite else [])
     return {"v": v, "t": t, "key": repr(hist), "ops": ops,
             "o": "%d/%s/%s/%s" % (n, last, hidden, "composite" if composite else "single"), "nt": len(hist) > 1}
@@ -674,7 +697,7 @@ def history_roots(lat, dims, nconf):
                 a, b = a % N, b % N
                 if a == b:
                     b = (b + 1) % N
-                us.append([L[a], L[b], REPS[(c + j) % 4]])
+                us.append([L[a], L[b], REPS[(c + j) % 4], H_LENGTHS[(c + 2 * j) % 3]])
             roots.append([["root", n] + us])
     return roots
 
@@ -786,7 +809,9 @@ def run(ctx):
                                     "g": "tv = g @ tv for a boost (0) / an orientation-reversing isometry (1)", "copy": "tv = TangentVector(tv)",
                                     "norm": "tv = tv.normalized()", "set0": "tv[0] = a third tangent vector", "rev": "tv = tv[::-1]", "get1": "tv = tv[1]"},
                      "state": "composite (2,) unit tangent vector (single after get1); no merging of histories (key = history)",
-                     "checked in every state": "object data, point_along(t) for t in %r, origin_to() @ base tangent, angle with a fresh tangent vector turned by %r" % (H_TS, H_ANGLE)})
-    ctx.assume("histories: all tangent vectors are unit and stay unit (isometries, copies, item access); base points reach "
-               "hyperbolic distance <= ~4 from the origin after three isometries")
+                     "lengths": "the three tangent vectors of a root have Minkowski lengths from %r; the model tracks them (queries keep, normalized() -> 1)" % (H_LENGTHS,),
+                     "checked in every state": "object data incl. vector length (before and after the state's own queries), point_along(t) for t in %r, origin_to() @ base tangent, angle with a fresh tangent vector turned by %r" % (H_TS, H_ANGLE)})
+    ctx.assume("histories: tangent vectors start with Minkowski lengths in %r and keep them under isometries, copies, item access and every query "
+               "(normalized() returns length 1); point_along / origin_to / angle are judged on the direction only (they normalise internally); base "
+               "points reach hyperbolic distance <= ~4 from the origin after three isometries" % (H_LENGTHS,))
     ctx.tolerances["histories"] = "1e-9 projective difference on Euclidean-normalised rows / 1e-9*(1+|D|) on directions (measured <= 1e-12)"
